@@ -730,13 +730,19 @@ class FnVerifier:
                 self.emit_log(R, ext.event, mk_int(1))
             elif isinstance(li, tuple) and li[0] == "const":
                 self.emit_log(R, ext.event, mk_int(li[1]))  # several externals share one ordered log, told apart by the constant
-            elif li < len(args) and not args[li].is_const and not args[li].t.heap and args[li].t == self.log_type(ext.event):
+            elif li < len(args) and not args[li].is_const and not args[li].t.heap and self.log_type(ext.event) is not None and (
+                    args[li].t == self.log_type(ext.event) or (args[li].t.kind == "union" and args[li].t.index(self.log_type(ext.event)) is not None)
+                    or (self.log_type(ext.event).kind == "union" and self.log_type(ext.event).index(args[li].t) is not None)):
+                # (an argument that is a union holding the log's type is narrowed by the path condition; it used to be dropped silently)
                 lt = self.log_type(ext.event)
                 st = T.Seq(lt)
                 cur = R.ghost.get(("log", ext.event))
                 if cur is None:
                     cur = V(st, z3.Empty(st.sort()))
                 R.ghost[("log", ext.event)] = V(st, z3.Concat(cur.z, z3.Unit(R.coerce(args[li], lt).z)))
+            elif isinstance(li, int) and li < len(args) and not args[li].is_const and not args[li].t.heap and self.log_type(ext.event) is not None \
+                    and ext.log_type is not None:
+                raise EngineError("event %s: argument %d has type %s, the declared log type is %s (the event would not be logged)" % (ext.event, li, args[li].t, self.log_type(ext.event)))
             h = self.c.hooks.get("event")
             if h:
                 h(R, R.trace[-1], node)
@@ -1142,6 +1148,7 @@ class FnVerifier:
                     continue
                 self.add_obligation(R, "ensures", lbl, g, clause=en)
             self.frame_events(R)
+            self.frame_heap(R, env)
         else:
             exc = payload
             R.labels.append("raise:" + exc.cls)
@@ -1164,6 +1171,144 @@ class FnVerifier:
                     except ClauseVacuous:
                         continue
                     self.add_obligation(R, "ensures-exc", lbl, g, clause=en)
+                for lbl, en in c.ensures_exc_locals.items():
+                    try:
+                        names = {n.id for n in ast.walk(self.parse_clause(en)) if isinstance(n, ast.Name)}
+                        if any(frame.lookup(n) is UNDEFINED or (n in c.locals and frame.lookup(n) is None) for n in names):
+                            continue
+                        g = R.truthy(R.spec_eval_in_frame(en, frame, {"exc": const(exc)}))
+                    except (ClauseVacuous, Unsupported):
+                        continue
+                    self.add_obligation(R, "ensures-exc", lbl, g, clause=en)
+            self.frame_heap(R, env)
+
+    # ------------------------------------------------------------------ heap frame (`modifies`)
+    def _entry_eval(self, R, src, env):
+        e = dict(env)
+        e.update(env.get("__old_env__", {}))
+        s2 = (R.pure, R.spec_env, R.old_heap)
+        R.pure, R.spec_env, R.old_heap = True, e, R.entry_heap
+        try:
+            return R.ev(self.parse_clause(src), None)
+        finally:
+            R.pure, R.spec_env, R.old_heap = s2
+
+    def _reachable_in(self, heap, v):
+        out, stack = set(), [v]
+        while stack:
+            x = stack.pop()
+            if not isinstance(x, V) or x.is_const or not x.t.heap or x.z in out or x.z not in heap:
+                continue
+            out.add(x.z)
+            cc = heap[x.z].content
+            if isinstance(cc, dict):
+                stack.extend(cc.values())
+        return out
+
+    def frame_heap(self, R, env):
+        """`modifies` is a checked frame: every heap cell that existed on entry and every data global keeps its entry content unless a
+        `modifies` target covers it (a whole object with what it reaches, one attribute, one record key, one global name).  This is what a
+        CALLER relies on when it havocs only the callee's `modifies`."""
+        c = self.c
+        if c.config.get("frame") == "unchecked":
+            note = ("frame unchecked", c.config.get("frame_reason", "the contract's modifies clause is not checked against the body"))
+            if note not in self.assumed:
+                self.assumed.append(note)
+            return
+        entry = R.entry_heap
+        allowed_locs, allowed_fields, allowed_globals = set(), set(), set()
+        for mx in c.modifies:
+            node = self.parse_clause(mx)
+            if isinstance(node, ast.Name) and node.id in R.globals_ and not R.globals_[node.id].t.heap:
+                allowed_globals.add(node.id)
+                continue
+            try:
+                if isinstance(node, ast.Subscript) and isinstance(node.slice, ast.Constant) and isinstance(node.slice.value, str):
+                    base = self._entry_eval(R, ast.unparse(node.value), env)
+                    if base.t.kind == "drec":
+                        allowed_fields.add((base.z, node.slice.value))
+                        allowed_fields.add((base.z, "has_" + node.slice.value))
+                        cur = entry[base.z].content.get(node.slice.value)
+                        if isinstance(cur, V) and not cur.is_const and cur.t.heap:
+                            allowed_locs |= self._reachable_in(entry, cur)
+                        continue
+                if isinstance(node, ast.Attribute):
+                    base = self._entry_eval(R, ast.unparse(node.value), env)
+                    if base.t.kind == "obj":
+                        allowed_fields.add((base.z, node.attr))
+                        cur = entry[base.z].content.get(node.attr)
+                        if isinstance(cur, V) and not cur.is_const and cur.t.heap:
+                            allowed_locs |= self._reachable_in(entry, cur)
+                        continue
+                v = self._entry_eval(R, mx, env)
+            except (EngineError, Unsupported, ClauseVacuous, KeyError):
+                continue
+            if not v.is_const and v.t.heap:
+                allowed_locs |= self._reachable_in(entry, v)
+        # access paths (for stable obligation names)
+        names = {}
+        roots = [(n_, v_) for n_, v_ in sorted(env.get("__old_env__", {}).items()) if isinstance(v_, V)]
+        queue = [(n_, v_) for n_, v_ in roots if not v_.is_const and v_.t.heap]
+        while queue:
+            nm, v = queue.pop(0)
+            if v.z in names or v.z not in entry:
+                continue
+            names[v.z] = nm
+            cc = entry[v.z].content
+            if isinstance(cc, dict):
+                for k in sorted(cc, key=str):
+                    fv = cc[k]
+                    if isinstance(fv, V) and not fv.is_const and fv.t.heap:
+                        queue.append(("%s.%s" % (nm, k), fv))
+
+        def same(a, b):
+            if a is b:
+                return True
+            if not isinstance(a, V) or not isinstance(b, V):
+                return a == b
+            if a.is_const or b.is_const:
+                return a.is_const and b.is_const and (a.z is b.z or a.z == b.z)
+            if a.t.heap or b.t.heap:
+                return a.t.heap and b.t.heap and a.z == b.z
+            return a.t == b.t and z3.is_ast(a.z) and z3.is_ast(b.z) and a.z.eq(b.z)
+
+        def differ(a, b):
+            """z3 condition `unchanged`"""
+            if not isinstance(a, V) or not isinstance(b, V) or a.is_const or b.is_const or a.t.heap or b.t.heap:
+                return z3.BoolVal(False)
+            try:
+                return R.eq(a, b)
+            except (EngineError, Unsupported):
+                return z3.BoolVal(False)
+
+        for loc in sorted(entry):
+            if loc in allowed_locs or loc not in R.heap:
+                continue
+            oc, nc = entry[loc], R.heap[loc]
+            nm = names.get(loc, "<%s>" % (oc.ty,))
+            if isinstance(oc.content, dict):
+                for k in sorted(oc.content, key=str):
+                    if (loc, k) in allowed_fields:
+                        continue
+                    ov, nv = oc.content[k], nc.content.get(k) if isinstance(nc.content, dict) else None
+                    if same(ov, nv):
+                        continue
+                    self.add_obligation(R, "frame", "unchanged:%s.%s" % (nm, k), differ(ov, nv),
+                                        clause="%s.%s is not in `modifies`: it keeps its entry value" % (nm, k))
+            else:
+                ov, nv = oc.content, nc.content
+                if same(ov, nv):
+                    continue
+                self.add_obligation(R, "frame", "unchanged:%s" % nm, differ(ov, nv),
+                                    clause="%s is not in `modifies`: it keeps its entry content" % nm)
+        old_env = env.get("__old_env__", {})
+        for gk, gv in sorted(R.globals_.items()):
+            if gk in allowed_globals or gk in c.params or gv.is_const or gv.t.heap:
+                continue
+            ov = old_env.get(gk)
+            if ov is None or same(ov, gv):
+                continue
+            self.add_obligation(R, "frame", "unchanged:%s" % gk, differ(ov, gv), clause="global %s is not in `modifies`: it keeps its entry value" % gk)
 
     def frame_events(self, R):
         c = self.c
